@@ -116,7 +116,8 @@ def arm_reads(ctx, tag="c03"):
         icontract.ensure(post_int, error=MonitorViolation)(RPD.read_as_int)))
     RPD.read_as_bytes = icontract.snapshot(snap_pos, name="pos")(icontract.snapshot(snap_buf, name="buf")(
         icontract.ensure(post_bytes, error=MonitorViolation)(RPD.read_as_bytes)))
-    packets._extract_bits = icontract.ensure(post_extract, error=MonitorViolation)(packets._extract_bits)
+    if callable(getattr(packets, "_extract_bits", None)):     # private helper: monitored when present, never required
+        packets._extract_bits = icontract.ensure(post_extract, error=MonitorViolation)(packets._extract_bits)
 
 
 def arm_numeric(ctx):
@@ -178,7 +179,10 @@ def arm_numeric(ctx):
         return True
 
     I, F = encodings.IntegerDataEncoding, encodings.FloatDataEncoding
-    I._get_raw_value = icontract.snapshot(snap, name="before")(
-        icontract.ensure(post_int, error=MonitorViolation)(I._get_raw_value))
-    F._get_raw_value = icontract.snapshot(snap, name="before")(
-        icontract.ensure(post_float, error=MonitorViolation)(F._get_raw_value))
+    # _get_raw_value is a private method: monitored when present (extra observability), never required for a verdict
+    if callable(getattr(I, "_get_raw_value", None)):
+        I._get_raw_value = icontract.snapshot(snap, name="before")(
+            icontract.ensure(post_int, error=MonitorViolation)(I._get_raw_value))
+    if callable(getattr(F, "_get_raw_value", None)):
+        F._get_raw_value = icontract.snapshot(snap, name="before")(
+            icontract.ensure(post_float, error=MonitorViolation)(F._get_raw_value))
